@@ -5,6 +5,7 @@ import (
 	"net/http"
 	"net/url"
 	"path"
+	"strconv"
 	"strings"
 
 	api "github.com/polydawn/go-timeless-api"
@@ -61,6 +62,12 @@ func NewController(addr api.WarehouseLocation) (warehouse.BlobstoreController, e
 	}
 	if u.Host == "" {
 		return whCtrl, Errorf(rio.ErrUsage, "malformed warehouse addr %q: no host", addr)
+	}
+	if p := u.Port(); p != "" {
+		// (url.Parse takes any run of digits for a port.)
+		if n, err := strconv.Atoi(p); err != nil || n > 65535 {
+			return whCtrl, Errorf(rio.ErrUsage, "malformed warehouse addr %q: invalid port %q", addr, p)
+		}
 	}
 	whCtrl.baseUrl = u
 
